@@ -41,32 +41,39 @@ func generate(src string) (string, []string, error) {
 	return b.String(), out.Literals, nil
 }
 
+var reLit = regexp.MustCompile(`(?m)^\s*templ_7745c5c3_Err = templruntime\.WriteString\(templ_7745c5c3_Buffer, \d+, "((?:[^"\\]|\\.)*)"\)\n\s*if templ_7745c5c3_Err != nil \{\n\s*return templ_7745c5c3_Err\n\s*\}\n`)
+
+// despace removes every space from static literals (dropping literals that become empty) and the literal indices,
+// and returns the number of spaces removed: two programs equal after despace differ only in spaces between nodes.
+func despace(prog string) (string, int) {
+	n := 0
+	out := reLit.ReplaceAllStringFunc(prog, func(m string) string {
+		sub := reLit.FindStringSubmatch(m)
+		lit := sub[1]
+		n += strings.Count(lit, " ")
+		lit = strings.ReplaceAll(lit, " ", "")
+		if lit == "" {
+			return ""
+		}
+		return "LIT " + lit + "\n"
+	})
+	return out, n
+}
+
 // diffShape classifies how the program generated from the formatted file differs.
 func diffShape(cs fmttie.Case, lits1, lits2 []string, prog1, prog2 string) string {
 	if !cs.SameStructure {
 		return "ReparsedStructureDiffers"
 	}
-	if len(lits1) == len(lits2) {
-		onlySpace := true
-		gained := false
-		for i := range lits1 {
-			if lits1[i] == lits2[i] {
-				continue
-			}
-			a, b := lits1[i], lits2[i]
-			if strings.ReplaceAll(a, " ", "") != strings.ReplaceAll(b, " ", "") {
-				onlySpace = false
-			}
-			if len(b) > len(a) {
-				gained = true
-			}
-		}
-		if onlySpace && gained {
+	d1, n1 := despace(prog1)
+	d2, n2 := despace(prog2)
+	if d1 == d2 {
+		if n2 > n1 {
 			return "SpaceGainedBetweenNodes"
 		}
-		if onlySpace {
-			return "SpaceLostBetweenNodes"
-		}
+		return "SpaceLostBetweenNodes"
+	}
+	if len(lits1) == len(lits2) {
 		return "LiteralTextDiffers"
 	}
 	return "LiteralCountDiffers"
